@@ -208,6 +208,8 @@ def c11(tier):
     for integ in ("generic", "rdflib"):
         for phys in (1, 2):
             us.append(U(f"pull:{integ}:p{phys}:K{K}", "flow", "pull", dict(integ=integ, phys=phys, K=K), timeout=300))
+    for integ in ("generic", "rdflib"):
+        us.append(U(f"pull_graph:{integ}", "flow", "pull_graph", dict(integ=integ), timeout=300))
     Ks = 3 if tier == "quick" else 4
     for integ in ("generic", "rdflib"):
         for phys in (1, 2):
@@ -502,6 +504,10 @@ def c15(tier):
                             us.append(U(f"diff:p{phys}:sp{sp}:f{'.'.join(map(str, fx))}:t{nm}-{pf}-{dt}:d{int(delim)}", "diff", "diff",
                                         dict(phys=phys, spine=sp, fixed=fx, alph=alph, K=2, names=nm, prefixes=pf, datatypes=dt, delimited=delim, entry=entry,
                                              setsem=(phys == 3)), timeout=600))
+    # same options beyond the flat defaults: non-delimited with an unspecified logical type, grouped logical types
+    for phys, logical, delim in ((1, 0, False), (2, 0, False), (2, 4, True), (1, 3, True)):
+        us.append(U(f"diff:p{phys}:lt{logical}:d{int(delim)}", "diff", "diff",
+                    dict(phys=phys, spine=0, fixed=[1, 0], alph=alph, K=2, names=8, prefixes=4, datatypes=2, delimited=delim, entry="stream_frames", logical=logical), timeout=600))
     for phys in (1, 2, 3):
         for pf in (0, 4):
             us.append(U(f"diffref:p{phys}:pf{pf}", "diff", "diff_ref", dict(phys=phys, prefixes=pf), timeout=600))
